@@ -38,9 +38,9 @@ EntryMods(t, env, v, i) ==
       cenv == ArgsVal(f.na, env, t, v)
       Leaf(x) == IF Len(f.dom) > 0 THEN {f.dom[j] : j \in 1..Len(f.dom)} \ {x} ELSE Mods(f.t, cenv, x)
   IN IF ~IsOpt(f) THEN Leaf(v[i])
-     ELSE IF NatMasked(f) THEN (IF v[i].p THEN {Pres(w) : w \in Leaf(v[i].v)} ELSE {})
-     ELSE IF v[i].p THEN {Absent} \cup {Pres(w) : w \in Leaf(v[i].v)}
-     ELSE {Pres(Default(f.t, cenv))}
+     ELSE IF NatMasked(f) THEN (IF IsP(v[i]) /\ ~f.isbit THEN {Pres(w) : w \in Leaf(PV(v[i]))} ELSE {})
+     ELSE IF IsP(v[i]) THEN {Absent} \cup (IF f.isbit THEN {} ELSE {Pres(w) : w \in Leaf(PV(v[i]))})
+     ELSE {Pres(FDefault(f, Default(f.t, cenv)))}
 Mods(tn, env, v) ==
   LET t == TY(tn) IN
   CASE t.k = "prim" -> PrimDom(t.prim) \ {v}
